@@ -37,22 +37,32 @@ FUNS = [
 def main():
     style, name, header = sys.argv[1], sys.argv[2], sys.argv[3]
     h = open(header).read()
-    m = re.search(r"\(\* LEAVES:([^*]*)\*\)", h)
-    leaves = set(m.group(1).split()) if m else set()
     m = re.search(r"\(\* SKIP:([^*]*)\*\)", h)
     skip = set(m.group(1).split()) if m else set()
-    pred = "preserves" if style == "preserves" else "rel"
+    custom = {}
+    if "(*@@ LEAVES @@*)" in h:
+        h, rest = h.split("(*@@ LEAVES @@*)", 1)
+        for blk in re.split(r"\(\*@ ", rest)[1:]:
+            fname, body = blk.split(" *)", 1)
+            custom[fname.strip()] = body.strip()
+    pred = {"preserves": "preserves", "rel": "rel", "resok": "resok", "nd": "nd"}[style]
+    fixed_fuel = "(* FIXED_FUEL *)" in h
     out = [h.rstrip(), ""]
     for f, args, sh, kind in FUNS:
         if f in skip:
             continue
         call = f + (" shuf" if sh else "")
-        # Step.v functions take shuf then fuel
         argl = args.split()
-        if f in leaves:
-            out.append(f"#[local] Hint Resolve {f}_{name} : pres.")
+        if fixed_fuel and kind == "plain":
+            # fuel is a section variable: keep it in the call, drop it from the binders
+            pass
+        if f in custom:
+            out.append(custom[f])
+            if f"Hint" not in custom[f].split("\n")[-1]:
+                out.append(f"#[local] Hint Resolve {f}_{name} : pres.")
             continue
-        binder = (" " + " ".join(argl)) if argl else ""
+        bl = [a for a in argl if not (fixed_fuel and a == "fuel")]
+        binder = (" " + " ".join(bl)) if bl else ""
         app = " ".join([call] + argl)
         if kind == "plain":
             out.append(f"Lemma {f}_{name}{binder} : {pred} {name} ({app}).")
@@ -67,7 +77,15 @@ def main():
             out.append(f"Lemma {f}_{name} ts : forall {' '.join(rest)}, {pred} {name} ({app}).")
             out.append(f"Proof. induction ts as [|k ts IH]; intros {' '.join(rest)}; cbn [{f}]; go. Qed.")
         out.append(f"#[local] Hint Resolve {f}_{name} : pres.")
+    if "(*@END" in "".join(custom.keys()):
+        pass
+    out.append(custom.get("END", ""))
     out.append("End S.")
+    m = re.search(r"\(\* EXPORT: (\w+) \*\)", h)
+    if m:
+        names = [f for f, *_ in FUNS if f not in skip and not (f in custom and "no Hint" in custom[f])]
+        out.append(f"Create HintDb {m.group(1)} discriminated.")
+        out.append("#[export] Hint Resolve " + " ".join(f"{f}_{name}" for f in names) + f" : {m.group(1)} pres.")
     print("\n".join(out))
 
 main()
